@@ -14,7 +14,12 @@
 //!                      Runtime is dropped WITHOUT finish()
 //!        end=apperr  : as finish, but the inner application's at_sim_end returns Err (finish() returns Err)
 //!        end=unwind  : a panic unwinds through the started Runtime while it is in scope (caught by the harness)
-//!   mod <M> parent=<P|-> pe=<n> stages=<s>          module; path = <P's path>.<M>
+//!   mod <M> parent=<P|-> pe=<n> stages=<s> [kind=new|failable|io wait=recv|hold|done]
+//!                                                   module; path = <P's path>.<M>.  With kind= the module is built with
+//!                                                   AsyncFn::new / failable / io: its generator captures a counted value
+//!                                                   (obj cap <M>#k) and its task reads and drops messages (recv), keeps the
+//!                                                   first message and sleeps 1000 s so that later ones stay unread in its
+//!                                                   channel (hold), or ends at once (done); `do` lines do not apply to it
 //!   chain <C> ch=none|q|qs|d ring=0|1 mods=<M,M,…>  gate `C` on every listed module, consecutive gates
 //!                                                   connected (ring=1: last to first as well); q = Queue(None),
 //!                                                   qs = Queue(250 B), d = Drop; 8 kbit/s, 1 ms latency, 100 B bodies
@@ -32,9 +37,13 @@
 //!               panic                               the handler panics (module error)
 //!               pepanic                             (msg hook) a processing element of <M> panics in `incoming` on that
 //!                                                   message id: outside the module harness, the panic unwinds out of run()
-//!   init <M> <id> <time> <B|->                      message injected with handle_message_on before the run
+//!   init <M> <id> <time|max> <B|->                  message injected with handle_message_on before the run
+//!   A time / delay `max` is SimTime::MAX ("never fires" watchdog; `sched <id> max <B>` = schedule_at(.., SimTime::MAX)).
+//!   Such an event must never become the NEXT event of a started run (peeking at it scans the calendar for ever), so a
+//!   script that contains one is run with a fence event at 3600 s, a time limit (<= 1 s) instead of an event-count limit,
+//!   and never through finish()'s drain (end=finish is executed as end=nofinish).
 //! Transcript: the same lines, then
-//!   stop now=<ns> fes=<n> down=<M,…|-> kept=<n> queued=<n>      state after the event loop, before finish()
+//!   stop now=<ns> fes=<n> down=<M,…|-> kept=<n> queued=<n> held=<n>   state after the event loop, before finish()
 //!   q <C> <dir> <n,n,…>                                         queued packets per link of chain <C> (fwd / bwd)
 //!   fin res=ok|err|panic rem=<n> hm=<n> ex=<n> ub=<n> rs=<n> aw=<n>   finish(): remaining events by kind
 //!   obj <kind> <tag#k> c=<created> s=<dropped at stop> d=<dropped right after the drop> l=<dropped after sim2 and sim3>
@@ -66,6 +75,7 @@ struct Registry {
     objs: Vec<Obj>,
     inst: HashMap<String, u32>,
     kept: u32,
+    held: u32,
     log2: Vec<String>,
 }
 
@@ -142,6 +152,8 @@ struct ModSpec {
     path: String,
     pe: usize,
     stages: usize,
+    kind: String,
+    wait: String,
     start: HashMap<u64, Vec<Act>>,
     msg: HashMap<u64, Vec<Act>>,
     end: Vec<Act>,
@@ -171,7 +183,7 @@ fn parse_act(t: &[&str], chains: &[ChainSpec], own: &str) -> Option<Act> {
             }
             Some(Act::Send { chain: c.to_string(), id: id.parse().ok()?, delay: delay.parse().ok()?, body: body.to_string() })
         }
-        ["sched", id, delay, body] => Some(Act::Sched { id: id.parse().ok()?, delay: delay.parse().ok()?, body: body.to_string() }),
+        ["sched", id, delay, body] => Some(Act::Sched { id: id.parse().ok()?, delay: if *delay == "max" { u64::MAX } else { delay.parse().ok()? }, body: body.to_string() }),
         ["task", tag, "sleep", ns, loc, join] => Some(Act::TaskSleep { tag: tag.to_string(), ns: ns.parse().ok()?, local: *loc == "loc", join: join.to_string() }),
         ["task", tag, "recv", own, loc, join] => Some(Act::TaskRecv { tag: tag.to_string(), own: *own == "1", local: *loc == "loc", join: join.to_string() }),
         ["task", tag, "ssend", ns, c, id, body] => {
@@ -208,6 +220,8 @@ fn parse(body: &[String]) -> Script {
                 path,
                 pe: hval(&l, "pe").and_then(|v| v.parse().ok()).unwrap_or(0),
                 stages: hval(&l, "stages").and_then(|v| v.parse().ok()).unwrap_or(1),
+                kind: hval(&l, "kind").unwrap_or_default(),
+                wait: hval(&l, "wait").unwrap_or_else(|| "recv".into()),
                 ..Default::default()
             });
         }
@@ -239,6 +253,9 @@ fn parse(body: &[String]) -> Script {
             ["do", m, hook, key, act @ ..] => {
                 let Ok(key) = key.parse::<u64>() else { continue };
                 let Some(ms) = sc.mods.iter_mut().find(|x| x.tag == *m) else { continue };
+                if !ms.kind.is_empty() {
+                    continue;
+                }
                 let Some(a) = parse_act(act, &chains, m) else { continue };
                 match *hook {
                     "start" => ms.start.entry(key).or_default().push(a),
@@ -248,7 +265,8 @@ fn parse(body: &[String]) -> Script {
                 }
             }
             ["init", m, id, time, b] => {
-                let (Ok(id), Ok(time)) = (id.parse::<u16>(), time.parse::<u64>()) else { continue };
+                let time = if *time == "max" { Ok(u64::MAX) } else { time.parse::<u64>() };
+                let (Ok(id), Ok(time)) = (id.parse::<u16>(), time) else { continue };
                 if sc.mods.iter().any(|x| x.tag == *m) {
                     sc.inits.push((m.to_string(), id, time, b.to_string()));
                 }
@@ -345,7 +363,14 @@ impl Node {
         for a in acts.into_iter().flatten() {
             match a {
                 Act::Send { chain, id, delay, body } => do_send(chain, *id, *delay, body),
-                Act::Sched { id, delay, body } => schedule_in(mk_msg(*id, body), Duration::from_nanos(*delay)),
+                Act::Sched { id, delay, body } => {
+                    if *delay == u64::MAX {
+                        // the "never fires" watchdog
+                        schedule_at(mk_msg(*id, body), SimTime::MAX)
+                    } else {
+                        schedule_in(mk_msg(*id, body), Duration::from_nanos(*delay))
+                    }
+                }
                 Act::TaskSleep { tag, ns, local, join } => {
                     let t = Tracked::new("task", tag);
                     let ns = *ns;
@@ -438,6 +463,49 @@ impl Module for Node {
     }
 }
 
+/// the future of an AsyncFn module: captures a counted value
+async fn afn_body(cap: Tracked, wait: String, mut rx: mpsc::Receiver<Message>) {
+    let _cap = cap;
+    match wait.as_str() {
+        "done" => {}
+        "hold" => {
+            let mut held = Vec::new();
+            while let Some(m) = rx.recv().await {
+                held.push(m);
+                reg(|r| r.held += 1);
+                des::time::sleep(Duration::from_secs(1000)).await;
+            }
+        }
+        _ => {
+            while let Some(m) = rx.recv().await {
+                drop(m);
+            }
+        }
+    }
+}
+
+fn afn_module(kind: &str, wait: &str, tag: &str) -> des::net::blocks::AsyncFn {
+    use des::net::blocks::AsyncFn;
+    let (wait, tag) = (wait.to_string(), tag.to_string());
+    match kind {
+        "failable" => AsyncFn::failable(move |rx| {
+            let (cap, wait) = (Tracked::new("cap", &tag), wait.clone());
+            async move {
+                afn_body(cap, wait, rx).await;
+                Ok::<(), std::fmt::Error>(())
+            }
+        }),
+        "io" => AsyncFn::io(move |rx| {
+            let (cap, wait) = (Tracked::new("cap", &tag), wait.clone());
+            async move {
+                afn_body(cap, wait, rx).await;
+                Ok(())
+            }
+        }),
+        _ => AsyncFn::new(move |rx| afn_body(Tracked::new("cap", &tag), wait.clone(), rx)),
+    }
+}
+
 fn channel_of(ch: &str) -> Option<ChannelRef> {
     let drop = match ch {
         "q" => ChannelDropBehaviour::Queue(None),
@@ -470,6 +538,13 @@ fn simulate(sc: &Script, stop: &str, drop_order: &str, end: &str, out: &mut Vec<
     for m in &sc.mods {
         let spec = Arc::new(m.clone());
         let path = m.path.clone();
+        if !m.kind.is_empty() {
+            let node = afn_module(&m.kind, &m.wait, &m.tag);
+            if guarded(|| sim.node(path.as_str(), node)).is_ok() {
+                made.push(m.tag.clone());
+            }
+            continue;
+        }
         let node = Node { spec, me: Tracked::new("mod", &m.tag), kept: Vec::new(), txs: Vec::new(), downed: false };
         if guarded(|| sim.node(path.as_str(), node)).is_ok() {
             made.push(m.tag.clone());
@@ -503,6 +578,14 @@ fn simulate(sc: &Script, stop: &str, drop_order: &str, end: &str, out: &mut Vec<
     let mut builder = Builder::seeded(1).quiet();
     let lim_itr = stop.strip_prefix("itr:").and_then(|v| v.parse::<usize>().ok());
     let lim_time = stop.strip_prefix("time:").and_then(|v| v.parse::<u64>().ok()).map(|t| SimTime::from_duration(Duration::from_nanos(t)));
+    // an event at SimTime::MAX must never become the next event of a started run (see the header)
+    let has_max = sc.inits.iter().any(|i| i.2 == u64::MAX)
+        || sc.mods.iter().any(|m| {
+            m.start.values().chain(m.msg.values()).flatten().chain(m.end.iter()).any(|a| matches!(a, Act::Sched { delay, .. } if *delay == u64::MAX))
+        });
+    let one_sec = SimTime::from_duration(Duration::from_secs(1));
+    let (lim_itr, lim_time) = if has_max { (None, Some(lim_time.map_or(one_sec, |t| if t < one_sec { t } else { one_sec }))) } else { (lim_itr, lim_time) };
+    let end = if has_max && end == "finish" { "nofinish" } else { end };
     let manual = end == "nofinish";
     if manual {
         builder = builder.max_itr(20000);
@@ -516,7 +599,13 @@ fn simulate(sc: &Script, stop: &str, drop_order: &str, end: &str, out: &mut Vec<
     let mut rt = builder.build(sim.freeze());
     for (m, id, time, b) in &sc.inits {
         let Some(module) = rt.app.globals().get(&ObjectPath::from(path_of(m).as_str())) else { continue };
-        rt.handle_message_on(module, mk_msg(*id, b), SimTime::from_duration(Duration::from_nanos(*time)));
+        let at = if *time == u64::MAX { SimTime::MAX } else { SimTime::from_duration(Duration::from_nanos(*time)) };
+        rt.handle_message_on(module, mk_msg(*id, b), at);
+    }
+    if has_max {
+        if let Some(module) = made.first().and_then(|m| rt.app.globals().get(&ObjectPath::from(path_of(m).as_str()))) {
+            rt.handle_message_on(module, Message::default().id(65000), SimTime::from_duration(Duration::from_secs(3600)));
+        }
     }
     if stop == "never" {
         snapshot_stop();
@@ -583,12 +672,13 @@ fn simulate(sc: &Script, stop: &str, drop_order: &str, end: &str, out: &mut Vec<
     drop(globals);
     let kept = reg(|r| r.kept);
     out.push(format!(
-        "stop now={} fes={} down={} kept={} queued={}",
+        "stop now={} fes={} down={} kept={} queued={} held={}",
         SimTime::now().as_nanos(),
         rt.num_events_remaining(),
         if down.is_empty() { "-".to_string() } else { down.join(",") },
         kept,
-        queued
+        queued,
+        reg(|r| r.held)
     ));
     out.extend(qlines);
     if end == "nofinish" {
@@ -804,8 +894,12 @@ pub fn gen(seed: u64, count: usize, thorough: bool) -> String {
             _ => "full".to_string(),
         };
         let order = if r.chance(1, 2) { "ap" } else { "pa" };
+        // "never fires" watchdogs at SimTime::MAX: only with endings that neither dispatch nor drain them
+        let maxev = (stop == "never" || stop.starts_with("time:")) && r.chance(1, 3);
         let end = if stop.starts_with("never") {
             "finish"
+        } else if maxev {
+            *r.pick(&["nofinish", "nofinish", "apperr", "unwind"])
         } else {
             match r.below(10) {
                 0..=1 => "nofinish",
@@ -816,9 +910,16 @@ pub fn gen(seed: u64, count: usize, thorough: bool) -> String {
         };
         writeln!(out, "case {k} stop={stop} drop={order} end={end}").unwrap();
         let mods: Vec<String> = (0..nmods).map(|i| format!("m{i}")).collect();
+        let mut afn: Vec<String> = Vec::new();
         for (i, m) in mods.iter().enumerate() {
             let parent = if i > 0 && r.chance(1, 2) { mods[r.below(i as u64) as usize].clone() } else { "-".to_string() };
-            writeln!(out, "mod {m} parent={parent} pe={} stages={}", *r.pick(&[0u64, 0, 1, 2, 3]), *r.pick(&[1u64, 1, 1, 2, 0])).unwrap();
+            if r.chance(1, 5) {
+                // a module built with AsyncFn::{new, failable, io}
+                writeln!(out, "mod {m} parent={parent} pe=0 stages=1 kind={} wait={}", r.pick(&["new", "failable", "io"]), r.pick(&["recv", "hold", "hold", "done"])).unwrap();
+                afn.push(m.clone());
+            } else {
+                writeln!(out, "mod {m} parent={parent} pe={} stages={}", *r.pick(&[0u64, 0, 1, 2, 3]), *r.pick(&[1u64, 1, 1, 2, 0])).unwrap();
+            }
         }
         // chains and rings
         let mut chains: Vec<(String, Vec<String>, bool)> = Vec::new();
@@ -928,6 +1029,24 @@ pub fn gen(seed: u64, count: usize, thorough: bool) -> String {
                     bcount += 1;
                     writeln!(out, "do {m} start 0 send {} {} 0 b{bcount}", c.0, r.range(1, nid)).unwrap();
                 }
+            }
+        }
+        if maxev {
+            for _ in 0..r.range(1, 2) {
+                let m = r.pick(&mods).clone();
+                bcount += 1;
+                if r.chance(1, 2) && !afn.contains(&m) && stop != "never" {
+                    writeln!(out, "do {m} start 0 sched {} max b{bcount}", r.range(1, nid)).unwrap();
+                } else {
+                    writeln!(out, "init {m} {} max b{bcount}", r.range(1, nid)).unwrap();
+                }
+            }
+        }
+        // AsyncFn modules get some traffic of their own
+        for a in &afn {
+            for _ in 0..r.below(4) {
+                bcount += 1;
+                writeln!(out, "init {a} {} {} b{bcount}", r.range(1, nid), *r.pick(&[0u64, 1, 5, 1000, 100_000_000])).unwrap();
             }
         }
         let ninit = r.below(4);
